@@ -197,12 +197,49 @@ def array_level(tier, seed):
                         cpy = w.copy()
                         if not np.array_equal(np.asarray(cpy), r2[a:b]):
                             bad('copy of x[%d:%d] differs (n=%d)' % (a, b, n))
+                        if [int(x) for x in w._data] != bytes_before:
+                            bad('copy of x[%d:%d] changed the bytes of its source (n=%d)' % (a, b, n))
+                        if b > a:
+                            # the copy's own bytes (padding cleared) vs Packed.copy_view
+                            ops.append([[47], vdesc, bytes_before])
+                            exp.append(('bytes', [int(x) for x in cpy._data],
+                                        'bytes of the copy of x[%d:%d], n=%d' % (a, b, n)))
+                            dist['bytes:copy'] += 1
+                        extra = rng.randint(1, 20)
+                        cbytes = [int(x) for x in cpy._data]
+                        cdesc = [0, len(cpy._data), int(cpy._start_index), int(cpy._stop_index)]
+                        cpy.resize(b - a + extra)
+                        if b > a:
+                            ops.append([[48], cdesc, cbytes, [b - a + extra]])
+                            exp.append(('resize', ([0, len(cpy._data), int(cpy._start_index), int(cpy._stop_index)],
+                                                   [int(x) for x in cpy._data]),
+                                        'view and bytes of the copy of x[%d:%d] after resize(+%d), n=%d' % (a, b, extra, n)))
+                            dist['bytes:resize_copy'] += 1
+                        if not np.array_equal(np.asarray(cpy), np.concatenate([r2[a:b], np.zeros(extra, dtype=np.bool_)])):
+                            bad('a copy of x[%d:%d] enlarged by %d bits differs from the NumPy copy padded with False (n=%d)'
+                                % (a, b, extra, n))
                         if b > a:
                             cpy[0:b - a] = True
                     elif opn == 'resize':
                         extra = rng.randint(0, 20)
+                        rbytes = [int(x) for x in p2._data]
+                        rdesc = [0, len(p2._data), int(p2._start_index), int(p2._stop_index)]
                         p2.resize(n + extra)
                         r2 = np.concatenate([r2, np.zeros(extra, dtype=np.bool_)])
+                        ops.append([[48], rdesc, rbytes, [n + extra]])
+                        exp.append(('resize', ([0, len(p2._data), int(p2._start_index), int(p2._stop_index)],
+                                               [int(x) for x in p2._data]),
+                                    'view and bytes after resize(%d) of a %d-bit array' % (n + extra, n)))
+                        dist['bytes:resize'] += 1
+                        if n > 0 and rng.random() < 0.3:
+                            shrunk = False
+                            try:
+                                p2.resize(n + extra - 1 - rng.randrange(n))
+                                shrunk = True
+                            except ValueError:
+                                pass
+                            if shrunk:
+                                bad('resize to a smaller size was accepted (n=%d)' % n)
                     if byte_op is not None and b > a:
                         # the raw bytes of the view's buffer after the call (padding and neighbours included)
                         ops.append(byte_op[0])
@@ -231,6 +268,10 @@ def array_level(tier, seed):
             if r[0][0] != 1 or list(r[1]) != want:
                 fails.append(dict(step=0, what=label + ' differ from the byte-level model', layer='L1', impl=want,
                                   model=r[1] if len(r) > 1 else r))
+        elif kind == 'resize':
+            if r[0][0] != 1 or list(r[1]) != want[0] or list(r[2]) != want[1]:
+                fails.append(dict(step=0, what=label + ' differ from the byte-level model', layer='L1', impl=want,
+                                  model=r[1:] if len(r) > 1 else r))
         elif kind == 'fml':
             got = [_norm(r[1][0], r[1][1]), _norm(r[1][2], r[1][3]), _norm(r[1][4], r[1][5])]
             w2 = [_norm(*want[0]), _norm(*want[1]), _norm(*want[2])]
